@@ -23,8 +23,12 @@ for seed in seeds:
         if r.returncode != 0:
             bad += 1
             print(f'NONZERO seed={seed} {c} exit={r.returncode}')
+            show = 0
             for ln in r.stdout.splitlines():
-                if ln.startswith(('VIOLATION', '  key=', 'INCONCLUSIVE', 'HARNESS')):
+                if ln.startswith('HARNESS'):
+                    show = 40          # the traceback of the shard follows the HARNESS-ERROR line
+                if ln.startswith(('VIOLATION', '  key=', 'INCONCLUSIVE', 'HARNESS')) or show > 0:
                     print('   ', ln[:400])
+                    show -= 1
         print(f'seed={seed} {line}', flush=True)
 print('non-zero exits:', bad)
